@@ -189,9 +189,22 @@ def swallow_check(tier, seed):
                         last_is_raise = bool(h.body) and isinstance(h.body[-1], ast.Raise)
                         key = next((k for k in ALLOWED_HANDLERS if path.endswith(k[0]) and k[1] == fname
                                     and k[2] == exc), None)
+                        # a handler for ONE specific exception type that computes a fallback (returns a value, or
+                        # binds names by calling something) is an alternative way of doing the same thing, e.g.
+                        # `try: x = float(t)  except ValueError: x = parse_fortran(t)`; whether an error gets lost is
+                        # then decided by the malformed-deck runs.  Only handlers that can hide an error stay
+                        # obligations: broad ones (bare, Exception, BaseException, tuples) and those that compute nothing.
+                        broad = h.type is None or isinstance(h.type, ast.Tuple) or exc in ('Exception', 'BaseException')
+                        computes = any(isinstance(s_, ast.Return) and s_.value is not None for s_ in ast.walk(ast.Module(body=h.body, type_ignores=[]))) \
+                            or any(isinstance(s_, (ast.Assign, ast.AugAssign)) and any(isinstance(n_, ast.Call) for n_ in ast.walk(s_))
+                                   for s_ in h.body)
+                        fallback = not broad and computes and not last_is_raise and key is None
                         listed.append(f'{os.path.relpath(path, os.path.dirname(root))}:{h.lineno} {fname} except {exc}: '
                                       + ('re-raises' if last_is_raise else f'allowed ({ALLOWED_HANDLERS[key]})' if key
-                                         else 'SWALLOWS'))
+                                         else 'ADVISORY: computes a fallback for one exception type; decided by the '
+                                              'malformed-deck runs' if fallback else 'SWALLOWS'))
+                        if fallback:
+                            continue
                         if not last_is_raise and key is None:
                             fails.append({'label': 'handler-does-not-re-raise', 'case': f'{fn}:{h.lineno}',
                                           'detail': f'{path}:{h.lineno} in {fname}: except {exc} does not end in raise',
